@@ -173,6 +173,8 @@ def evaluate(pid, cases, oc=None, compare_outside_domain=False):
             # classification outcome is C08's; here only note a disagreement on it
             ie, me = o.get('classify_err'), r.get('classify_err')
             oc.count('classify-error')
+            if pid == 'C12' and (ie or '').startswith('crash:'):
+                oc.failing.append(dict(rec, spec='classifying a well-formed document escaped as a built-in exception: ' + ie))
             if ie != me:
                 oc.disagreements.append(dict(rec, what='classification', impl=ie, model=me))
             continue
